@@ -1465,12 +1465,26 @@ impl StoryState {
             ));
         }
 
+        let exists = self.current_flow.name.eq(flow_name)
+            || self
+                .named_flows
+                .as_ref()
+                .is_some_and(|named_flows| named_flows.contains_key(flow_name));
+
+        if !exists {
+            return Err(StoryError::BadArgument(format!(
+                "Cannot destroy flow '{flow_name}': there is no such flow"
+            )));
+        }
+
         // If we're currently in the flow that's being removed, switch back to default
         if self.current_flow.name.eq(flow_name) {
             self.switch_to_default_flow_internal();
         }
 
-        self.named_flows.as_mut().unwrap().remove(flow_name);
+        if let Some(named_flows) = self.named_flows.as_mut() {
+            named_flows.remove(flow_name);
+        }
         self.alive_flow_names_dirty = true;
 
         Ok(())
